@@ -158,6 +158,8 @@ func cellPairCase(e2 *Env, f replication.BinlogFormat, c Col, raw1, raw2 []byte,
 	if err != nil {
 		panic(err)
 	}
+	// the abstract inputs are the bytes as they were BEFORE the calls (a decoder must not alter what it reads)
+	in1, in2 := append([]byte{}, raw1...), append([]byte{}, raw2...)
 	var o1, o2 []byte
 	var n1, n2 int
 	var e1, e3 error
@@ -170,7 +172,7 @@ func cellPairCase(e2 *Env, f replication.BinlogFormat, c Col, raw1, raw2 []byte,
 			"fbits": B(floatBits(c.Typ, o)), "msg": B(rec.msg)}
 	}
 	emitCase(e2, M{"fn": "cellpair", "cls": cls, "typ": int(c.Typ), "metab": B(c.MetaB), "uns": c.Uns,
-		"raw": B(raw1), "raw2": B(raw2), "tz": zoneOffsetFor(c.Typ, raw1), "tz2": zoneOffsetFor(c.Typ, raw2), "zone": os.Getenv("VERIF_ZONE"),
+		"raw": B(in1), "raw2": B(in2), "tz": zoneOffsetFor(c.Typ, in1), "tz2": zoneOffsetFor(c.Typ, in2), "zone": os.Getenv("VERIF_ZONE"),
 		"obs": mk(o1, n1, e1), "obs2": mk(o2, n2, e3)})
 }
 
@@ -500,6 +502,7 @@ func e2eMode(fam string, pickCol func(r *rand.Rand) Col, statePatterns bool) fun
 		n := e.N(48, 600)
 		for i := 0; i < n; i++ {
 			cfg := cfgs[i%len(cfgs)]
+			cfg.PadOnes = i%3 == 1
 			l := &Log{Cfg: cfg}
 			ncols := 1 + e.R.Intn(5)
 			if i%5 == 4 {
@@ -759,7 +762,7 @@ func rowsCase(e *Env, cfg WireCfg, t *Table, kind string, rows []RowPair, extra 
 	for _, r := range rows {
 		arows = append(arows, M{"b": cellsJ(r.B, t), "a": cellsJ(r.A, t)})
 	}
-	emitCase(e, M{"fn": "rows", "cls": cls, "kind": kind, "v2": cfg.RowsV2, "tidw": cfg.TidW, "cksum": cfg.Checksum, "extra": len(extra),
+	emitCase(e, M{"fn": "rows", "cls": cls, "kind": kind, "v2": cfg.RowsV2, "tidw": cfg.TidW, "cksum": cfg.Checksum, "extra": len(extra), "padones": cfg.PadOnes,
 		"extrab": B(extra), "evbytes": B(raw), "tidtext": B(strconv.FormatUint(t.ID, 10)),
 		"tid": strconv.FormatUint(t.ID, 10), "cols": colsJ(t.Cols), "pb": boolBits(pb), "pa": boolBits(pa), "rows": arows, "obs": obs})
 }
@@ -943,6 +946,7 @@ func modeC09(e *Env) {
 }
 
 func rowsRandom(e *Env, cfg WireCfg, t *Table, nrows int, cls string) {
+	cfg.PadOnes = e.R.Intn(3) == 0
 	kind := pickS(e.R, "write", "update", "delete")
 	nc := len(t.Cols)
 	pb, pa := genPresent(e.R, nc), genPresent(e.R, nc)
@@ -1282,7 +1286,7 @@ func histWriterCases(e *Env) {
 				}
 			}
 			m := M{"fn": "ev.hist", "cls": "hist-" + ev.K, "k": ev.K, "evbytes": B(ev.Bytes), "ts": u32s(ev.TS), "np": u32s(np), "sid": u32s(cfg.ServerID),
-				"flags": flags, "cksum": cfg.Checksum, "tidw": cfg.TidW, "v2": cfg.RowsV2,
+				"flags": flags, "cksum": cfg.Checksum, "tidw": cfg.TidW, "v2": cfg.RowsV2, "padones": l.Cfg.PadOnes,
 				"obs": M{"valid": be.IsValid(), "ts": u32s(be.Timestamp()), "np": strconv.FormatInt(be.NextPosition(), 10)}}
 			switch ev.K {
 			case "fde":
